@@ -168,6 +168,7 @@ void sample_states(const char *where) {
                 for (auto &sd : W->sends)
                     for (int e : sd.eligible) if (e == s.idx && !sd.delivered.count(e)) sd.dead.insert(e);
                 s.pills_pending = 0;
+                s.pill_wildcard = false;
             }
             if ((old == ST_IDLE || old == ST_STOPPED) && st == ST_RUNNING) s.enter_running_from_rest++;
             if ((old == ST_RUNNING || old == ST_PAUSED) && st == ST_STOPPED) s.leave_active++;
@@ -421,6 +422,16 @@ static void loop_end(int rc) {
     for (auto &sd : W->sends)
         for (int e : sd.eligible)
             if (!sd.in_flush && !sd.delivered.count(e) && W->slots[e].st == ST_PAUSED) sd.dead.insert(e);
+    // the discard happens at the module's own turn of the final flush; a module that was not RUNNING at some point after the
+    // last poll may or may not have had its pending messages discarded: unconstrained from here on
+    for (auto &sl : W->slots) {
+        bool maybe = sl.st == ST_PAUSED || sl.last_non_running_gseq > W->last_real_poll_gseq;
+        if (!maybe) continue;
+        sl.pills_pending = 0;
+        for (auto &sd : W->sends)
+            for (int e : sd.eligible)
+                if (e == sl.idx && !sd.delivered.count(e) && !sd.dead.count(e)) sd.unknown.insert(e);
+    }
     orc_loop_end(lr);
     // model: a non-persistent context left without modules is released when the loop returns
     if (W->has_ctx && !(W->ctx_flags & M_CTX_PERSIST)) {
@@ -1114,7 +1125,9 @@ static void do_send(int kind, int from, int to, long topic_idx, bool autofree, i
         if (rc != 0) {
             sd.eligible.clear();
         } else if (kind == 3) {
-            if (W->slots[to].pills_pending == 0) W->slots[to].pending_pill_first_gseq = sd.gseq;
+            if (W->slots[to].pills_pending == 0) { W->slots[to].pending_pill_first_gseq = sd.gseq; W->slots[to].pill_overflowed = false; }
+            if (!sd.overflow.empty()) W->slots[to].pill_overflowed = true;
+            if (sd.in_flush) W->slots[to].pill_wildcard = true;
             W->slots[to].pills_pending++;
             W->slots[to].pending_pill_gseq = sd.gseq;
         }
@@ -1136,6 +1149,7 @@ static void quiescent_hook(bool real_poll) {
     orc_quiescent();
     for (auto &s : W->slots) s.recent_srcs.clear();
     W->last_quiescent_gseq = R->gseq;
+    if (real_poll) W->last_real_poll_gseq = R->gseq;
     W->reg_dereg_since_quiescent = 0;
     W->batches_at_last_quiescent = R->k.batches.size();
     W->loop_start_pending_eval = false;
